@@ -4,11 +4,11 @@ Pre = {"none", "notready", "connclosed", "badmd", "blocked"}
 Causes = {TRUE, FALSE}
 SrvFaults = {"refused", "unavail"}
 Finals = {"success", "srverr", "cancel_before", "cancel_after", "deadline"}
-MaxFaults = 3
-Mutant = 0
+MaxFaults = 1
+Mutant = 3
 INIT Init
 NEXT Next
 INVARIANT I_DoneAtMostOnce
 INVARIANT I_DoneOnFinish
-INVARIANT I_OneOutstanding
+
 CHECK_DEADLOCK FALSE
